@@ -6,6 +6,6 @@ def run_check(tier, seed, replay=None):
     return parser_family_check("C10", tier, seed, replay, CODE_CONTENT | CODE_PANIC,
         models=[("tracker", "MC_Tracker.tla", "MC_Tracker_%s.cfg" % tier)],
         suites=[("hist", "c10", ["--n", str(n)], "tracker")],
-        required_tags=["c10-exact", "c10-plus", "c10-minus", "c10-alone", "c10-random"],
+        required_tags=["c10-exact", "c10-plus", "c10-minus", "c10-alone", "c10-random", "c10-defop", "c10-asm"],
         required_results=["Ok", "Err:TypeUnsupported", "Err:OperandExceeded"],
         assumptions=BASE_ASSUMPTIONS + ["ids are defined once per binary (as in the property's quantifier)"])
